@@ -37,13 +37,12 @@ C (spec on impl, the property statement, judged on the implementation alone):
         chunked` (one field, no Content-Length) in which, after strictly framed chunks, a chunk-size line arrives that
         is no number at all (`zz`, empty, `1g`, `-`, `0x`, `3_`, `1 2`) or a negative number (`-1`, `-ff;ext`, ` -5`) is
         not dispatched and not answered 2xx - `malformed-dispatched(chunk-size)` - neither in the read that completes
-        that line nor in a later one, and the bytes that follow it produce no request event / response of their own -
-        `body-parsed-as-request`.  Not judged (leniency of the unchanged code, counted in the histogram
-        `framing_oracle`): lines that Python's int(x, 16) reads as a number >= 0 although they are not 1*HEXDIG
-        (`+3`, ` 3`, `3 `, `0x3`, `1_0`, `-0`: the code carries on with that number), and a negative size from the moment a
-        `0` digit has arrived after it (the unchanged code slices the buffer from its end with a negative size and may
-        then reach what it reads as a last-chunk; before any zero digit has arrived no reading of the bytes contains a
-        last-chunk, and the unchanged code waits).
+        that line nor in a later one, whatever follows the line and however the bytes are cut into reads, and the
+        bytes that follow it produce no request event / response of their own - `body-parsed-as-request`.  Not judged
+        (leniency of the code, counted in the histogram `framing_oracle`): lines that Python's int(x, 16) reads as a
+        number >= 0 although they are not 1*HEXDIG (`+3`, ` 3`, `3 `, `0x3`, `1_0`, `-0`: the code carries on with that
+        number).  (Before `fix: a negative chunk size is an invalid chunk size` the parser used a negative size as a
+        slice bound and dispatched e.g. `-2 CRLF <anything> CRLF` | `0 CRLF CRLF`: corpus chunk-negative-size-slice-dispatch.)
 B (correspondence): CV.Http14.step (machine `http14`) on the same script, lexers and their Python
 exceptions instantiated by the implementation's own leaf functions evaluated separately on the
 candidate byte strings: outcome kind, exit, status, request seen by the handler, table membership
@@ -448,21 +447,12 @@ def framing_verdicts(recs, notes=None):
             continue
         active = bool(r['reqs'] or r.get('wrote'))
         if s['mode'] == 'poisoned':
-            if s.get('escape'):
-                # negative chunk size: judged only as long as no reading of what followed contains a last-chunk
-                s['post'] += r['data']
-                if b'0' in s['post']:
-                    s['mode'] = 'lost'
-                    if notes is not None:
-                        notes.append(('chunk-size negative', f"zero digit arrives in a later read: not judged from here (impl {r['kind']})"))
-            if s['mode'] == 'lost':
-                pass
-            elif active and s.get('pending') and dispatched(r):
+            if active and s.get('pending') and dispatched(r):
                 # the message with the invalid chunk-size line itself, completed by a later read
                 v.append(('malformed-dispatched(chunk-size)',
                           f"read #{i} {r['data'][:60]!r}: request with invalid chunked framing ({s['desc']}, that line completed "
                           f"in read #{s['at']}) was {how_answered(r)}"))
-                s.update(pending=False, escape=False)
+                s['pending'] = False
             elif active:
                 what = ('a request event' if r['reqs'] else 'a response') + (f" ({r['status']})" if r.get('status') else '')
                 v.append(('body-parsed-as-request',
@@ -504,22 +494,17 @@ def framing_verdicts(recs, notes=None):
                     if notes is not None:
                         notes.append((f'chunk-size lenient({how}) not judged', f"impl {r['kind']}"))
                     s['mode'] = 'lost'
-                elif klass == 'negative' and b'0' in post:
-                    if notes is not None:
-                        notes.append(('chunk-size negative', f"zero digit follows in the same read: not judged (impl {r['kind']})"))
-                    s['mode'] = 'lost'
                 else:
                     if notes is not None:
                         notes.append((f'chunk-size {klass}', where))
                     desc = f"chunk-size line {line[:40]!r}: {'a negative number' if klass == 'negative' else 'not a number'}; RFC 7230 4.1 chunk-size = 1*HEXDIG"
-                    s.update(mode='poisoned', desc=desc, done='that line completed', at=i, pending=True,
-                             escape=klass == 'negative', post=post)
+                    s.update(mode='poisoned', desc=desc, done='that line completed', at=i, pending=True)
                     if dispatched(r):
                         v.append(('malformed-dispatched(chunk-size)',
                                   f"read #{i} {r['data'][:60]!r}: request with invalid chunked framing ({desc}) was {how_answered(r)}"))
-                        s.update(pending=False, escape=False)
+                        s['pending'] = False
                     elif active:
-                        s.update(pending=False, escape=False)      # answered by a rejection: nothing further may come of it
+                        s['pending'] = False      # answered by a rejection: nothing further may come of it
             else:
                 _tag, hl, kind, values = f
                 values = [x.decode('latin1') for x in values]
@@ -671,12 +656,18 @@ class Tables14(c13.LexTables):
         if h and h['te'] and h['clen'] == 'absent':
             for ln in lines:
                 if ln not in self.chunk:
-                    self.chunk[ln] = c13.lex_chunk(ln)  # may raise Unsupported (negative size)
-                    # the lexer is a parameter of the model; what it is instantiated with must be the number written
-                    # on the line (pyhex_value: Python's int(x, 16) written down independently of the code)
+                    got = c13.chunk_raw(ln)     # the tree's own _parse_chunk_size: number | None = InvalidChunkSize
+                    self.chunk[ln] = got if got is None or got >= 0 else None
+                    # the lexer is a parameter of the model (Bytes -> Option Nat, none = InvalidChunkSize); what it is
+                    # instantiated with must be the number written on the line (pyhex_value: Python's int(x, 16) written
+                    # down independently of the code) and InvalidChunkSize for a negative one.  A tree whose lexer
+                    # returns a negative number, or another number than the one on the line, is a disagreement - the
+                    # case is not skipped: the model runs with `none` for a negative size
                     want = pyhex_value(ln.split(b';', 1)[0])
-                    if self.chunk[ln] != want:
-                        self.lexc_bad.append((ln, self.chunk[ln], want))
+                    if want is not None and want < 0:
+                        want = None
+                    if got != want:
+                        self.lexc_bad.append((ln, got, want))
         if (fl, hb) not in self.path and (fl, hb) not in self.exnr:
             p = HttpParser(0)
             data = fl + CRLF + ((hb + CRLF2) if hb is not None else CRLF)
@@ -894,8 +885,10 @@ def evaluate(ctx, cases, shrink=True):
         for x in t.inconsistent():
             ctx.disagree(case, {'where': 'lexh-consistency', 'model': x})
         for ln, got, want in t.lexc_bad:
-            ctx.disagree(case, {'where': 'lexc-value', 'line': repr(ln), 'impl': got, 'model': want,
-                                'what': "the code's chunk-size lexer does not return the number written on the line"})
+            ctx.disagree(case, {'where': 'lexc-value', 'line': repr(ln), 'impl': got,
+                                'model': 'none (InvalidChunkSize)' if want is None else want,
+                                'what': "the code's chunk-size lexer does not return the number written on the line "
+                                        '(InvalidChunkSize for a negative one)'})
         ok, wires = compare(ctx, case, recs, t, ans, skip, plan)
         ctx.count('wire_checked', 'set-cookie-skipped', sum(1 for x in wires if x[2] is None))
         ctx.count('wire_checked', 'compared', sum(1 for x in wires if x[2] is not None))
@@ -1259,6 +1252,22 @@ def directed_chunk(rng):
                         how, segs = rng.choice(ways)
                         add(segs, [tag, where, what, how, 'variant'], beh=rng.choice(['raise', 'http403', 'badbody']),
                             queued=rng.random() < 0.5)
+    # a negative size read as a slice bound ("the buffer minus its last n bytes"): what the parser did before
+    # `fix: a negative chunk size is an invalid chunk size`; the outcome depended on where the reads were cut
+    for neg, data in ((b'-2', b'anything at all, any length'), (b'-2;x', b'GET /evil HTTP/1.1\r\nHost: h\r\n'), (b'-7', b''),
+                      (b'-5', b''), (b'-4', b'xy'), (b'-a', b'0123456789')):
+        for hi, head in enumerate(CHUNK_HEADS):
+            for where, before in CHUNK_BEFORE[:2]:
+                line = neg + CRLF + data + CRLF
+                last = b'0\r\n\r\n'
+                tags = ['chunk-negative', 'slice', where]
+                add([head + before + line, last], tags + ['line+data|last-chunk'])
+                add([head + before + line + last], tags + ['one-read'])
+                add([head, before + line, CHUNK_REST[0][1][0]], tags + ['head|line+data|rest-chunks'])
+                if hi == 0:
+                    k = rng.randint(1, len(line) - 1)
+                    add([head + before + line[:k], line[k:], last], tags + ['line+data cut|last-chunk'])
+                    add([head + before + line + last[:3], last[3:]], tags + ['last-chunk cut'])
     # on a kept-alive connection after a well-formed chunked request that ended at a read boundary
     good = b'POST /first HTTP/1.1\r\nHost: h\r\nTransfer-Encoding: chunked\r\n\r\n3\r\nabc\r\n0\r\n\r\n'
     for bad in CHUNK_UNPARSABLE[:6] + CHUNK_NEGATIVE[:8]:
@@ -1396,7 +1405,8 @@ def run(ctx):
                 'controls) x 3 request heads x header block and body in the same read / in separate reads / header block '
                 'cut / body cut / no body at all, also after a well-formed request on the same connection, and random '
                 'Content-Length mutations delivered with the body in a later read; directed: chunk-size lines that are not '
-                '1*HEXDIG (17 that are no number, 14 negative numbers, 19 that int(x,16) reads as a number >= 0 = unjudged '
+                '1*HEXDIG (17 that are no number, 14 negative numbers - plus 6 negative sizes with data shaped so that a '
+                'parser using the size as a slice bound reaches a last-chunk -, 19 that int(x,16) reads as a number >= 0 = unjudged '
                 'controls: sign, padding whitespace, 0x, underscores) as first chunk / after strictly framed chunks x followed '
                 'by an empty line / a trailer section / data and a last-chunk / nothing x one read / header block and body '
                 'in separate reads / cut inside the line or between its CR and LF / line and rest in separate reads, with '
@@ -1427,13 +1437,10 @@ def run(ctx):
         'identical values (rejected by the code, collapsible per RFC), any message with Transfer-Encoding, header blocks '
         'with escapes / folding / non-token names / control or high bytes, and messages whose start on the connection is '
         'not known from strict framing of what came before',
-        'clause (vi) judges chunk-size lines that are no number and negative ones; not judged: lines int(x, 16) reads as a '
-        'number >= 0 although RFC 7230 chunk-size = 1*HEXDIG does not allow them (+3, " 3", "3 ", 0x3, 1_0, -0, +0, 0x0: the '
-        'unchanged code carries on with that number and dispatches), a negative size once a "0" digit has arrived after it '
-        '(the unchanged code uses the negative number as a slice bound - the chunk is "what is in the buffer minus the last n '
-        'bytes", so what it does next depends on the read boundaries - and may then find a last-chunk and dispatch, e.g. '
-        '"-7 CRLF CRLF 0 CRLF CRLF" in one read or "-5 CRLF CRLF" followed by well-formed chunks in a later read), chunk '
-        'data not followed by CRLF, Transfer-Encoding other than the single coding chunked, Content-Encoding',
+        'clause (vi) judges chunk-size lines that are no number and negative ones, in every position and every '
+        'segmentation; not judged: lines int(x, 16) reads as a number >= 0 although RFC 7230 chunk-size = 1*HEXDIG does not '
+        'allow them (+3, " 3", "3 ", 0x3, 0x_3, 1_0, -0, +0, 0x0, 0_0: the code carries on with that number and dispatches), '
+        'chunk data not followed by CRLF, Transfer-Encoding other than the single coding chunked, Content-Encoding',
         'reads that a real server could still deliver between close(sock) and the disconnect are not explored',
     ]
     if not ctx.searching:
